@@ -55,6 +55,8 @@ SCENARIOS.update({
                                 "loop": {"bytes": PINGS2, "idle_waits": 0}, "copts": {"ping_rate": 0}},
 })
 BOUND2 = ["2x1_text_plain", "2x1_text_deflate", "2x1_text_binary_deflate", "2x1_text_ping_deflate"]
+FIRST_USE = ["2x1_text_deflate", "2x1_text_deflate_nct"]
+EARLY = 24
 _BASE = {}
 
 
@@ -179,7 +181,27 @@ class C11(Prop):
                             if t != who and done_after.get(t, 10 ** 9) >= step:
                                 yield {"scn": name, "order": list(order), "first": [s, t], "sweep2": name in bound2,
                                        "chain2": len(names) >= 3 and name not in bound2}
-        return [Enumeration("all_orders_x_single_preemptions" + ("_and_pairs" if bound2 else ""), cases, exhaustive=True)]
+        def first_use_races():
+            # races of INITIALISATION happen at the very start of the first send: an early first preemption (within the
+            # first EARLY steps) x every second preemption
+            for name in self.first_use():
+                if name not in scns or name in bound2:
+                    continue
+                scn = scns[name]
+                names = thread_names(scn)
+                for order in itertools.permutations(names):
+                    log = baseline_log_for(self, name, order)
+                    for step, who, _ in log[:EARLY]:
+                        for t in names:
+                            if t != who:
+                                yield {"scn": name, "order": list(order), "first": [step - 1, t], "sweep2": True}
+        out = [Enumeration("all_orders_x_single_preemptions" + ("_and_pairs" if bound2 else ""), cases, exhaustive=True)]
+        if self.first_use():
+            out.append(Enumeration("early_first_preemption_x_every_second_preemption", first_use_races, exhaustive=True))
+        return out
+
+    def first_use(self):
+        return FIRST_USE
 
     def bound2(self):
         return BOUND2
